@@ -337,6 +337,7 @@ Notation exec_l := (exec_l binop cmpop unop truth cval is_and).
 Notation ref_s := (ref_s binop cmpop unop truth cval is_and).
 Notation ref_l := (ref_l binop cmpop unop truth cval is_and).
 Notation ref_module := (ref_module binop cmpop unop truth cval is_and).
+Notation ref_module0 := (ref_module0 binop cmpop unop truth cval is_and).
 
 Definition seq (a : sres) (k : env -> val -> sres) : sres :=
   match s_exc a with
@@ -623,10 +624,10 @@ Proof.
 Qed.
 
 (* ---- modules *)
-Theorem module_sim body : forallb src_s body = true -> forall r sv,
-  sim (exec_l (instr_module c body) r sv) (ref_module body r).
+Theorem module_sim0 body : forallb src_s body = true -> forall r sv,
+  sim (exec_l (instr_module0 c body) r sv) (ref_module0 body r).
 Proof.
-  intros Hs r sv. unfold instr_module, FragSem.ref_module.
+  intros Hs r sv. unfold instr_module0, FragSem.ref_module0.
   assert (HB : forall r sv, sim (exec_l (flat_map (is_ c true) body) r sv) (ref_l true body r)).
   { apply list_ok; [|exact Hs]. apply Forall_forall. intros s _. apply stmt_sim. }
   assert (HX : forall r sv, sim (exec_l (flat_map (is_ c true) body ++ (if sub c E_exit_module then [SEmit E_exit_module 0 None] else [])) r sv)
@@ -645,6 +646,32 @@ Proof.
     cbn [app]. rewrite !fl_cons, X3. reflexivity.
   - cbn [app]. destruct (HX r sv) as (X1 & X2 & X3). unfold sim. cbn [r_exc r_env r_log] in *. repeat split; try assumption.
     rewrite fl_cons, Im. exact X3.
+Qed.
+
+(* ---- the module docstring: as written, first, silent *)
+Lemma trest_src body : forallb src_s body = true -> forallb src_s (trest body) = true.
+Proof.
+  destruct body as [|d rest]; [reflexivity|]. unfold trest. destruct (is_doc_t d); [|auto].
+  cbn [forallb]. intros H. now apply andb_true_iff in H as [_ H].
+Qed.
+Lemma tdoc_trest body : tdoc body ++ trest body = body.
+Proof. destruct body as [|d rest]; [reflexivity|]. unfold tdoc, trest. now destruct (is_doc_t d). Qed.
+Lemma exec_doc d u r sv : is_doc_t d = true ->
+  s_exc (exec_l (d :: u) r sv) = s_exc (exec_l u r sv) /\ s_env (exec_l (d :: u) r sv) = s_env (exec_l u r sv) /\
+  s_log (exec_l (d :: u) r sv) = s_log (exec_l u r sv).
+Proof.
+  destruct d as [n v| | | | |]; try discriminate. destruct v as [|m sc| | | | | | | | | | |]; try discriminate.
+  destruct sc; try discriminate. intros _. rewrite exec_l_cons. unfold seq. cbn [FragSem.exec_s FragSem.eval_e s_exc s_env s_saved s_log app].
+  repeat split; reflexivity.
+Qed.
+Theorem module_sim body : forallb src_s body = true -> forall r sv,
+  sim (exec_l (instr_module c body) r sv) (ref_module body r).
+Proof.
+  intros Hs r sv. unfold instr_module, FragSem.ref_module.
+  pose proof (module_sim0 (trest body) (trest_src body Hs)) as M.
+  destruct body as [|d rest]; [exact (M r sv)|]. unfold tdoc, trest in *. destruct (is_doc_t d) eqn:Ed; [|exact (M r sv)].
+  cbn [app]. destruct (exec_doc d (instr_module0 c rest) r sv Ed) as (E1 & E2 & E3).
+  destruct (M r sv) as (M1 & M2 & M3). unfold sim. rewrite E1, E2, E3. repeat split; assumption.
 Qed.
 
 (* ---- with no event subscribed the rewriter leaves a source program as it is *)
@@ -680,12 +707,14 @@ Proof.
     rewrite (L b H Hb), (L o H0 Ho). reflexivity.
 Qed.
 
-Lemma instr_none body : forallb src_s body = true -> instr_module c body = body.
+Lemma instr_none0 body : forallb src_s body = true -> instr_module0 c body = body.
 Proof.
-  intros Hs. unfold instr_module. rewrite !none. cbn [app]. rewrite app_nil_r.
+  intros Hs. unfold instr_module0. rewrite !none. cbn [app]. rewrite app_nil_r.
   induction body as [|x u IH]; [reflexivity|]. cbn [forallb] in Hs. apply andb_true_iff in Hs as [Hx Hu].
   cbn [flat_map]. rewrite (is_none x Hx true), (IH Hu). reflexivity.
 Qed.
+Lemma instr_none body : forallb src_s body = true -> instr_module c body = body.
+Proof. intros Hs. unfold instr_module. rewrite (instr_none0 _ (trest_src body Hs)). apply tdoc_trest. Qed.
 End ProofsS.
 
 (* ================================================================ the three statements, for any primitive operations *)
@@ -698,6 +727,7 @@ Variable cval : scalar -> val.
 Variable is_and : N -> bool.
 Notation exec_l := (exec_l binop cmpop unop truth cval is_and).
 Notation ref_module := (ref_module binop cmpop unop truth cval is_and).
+Notation ref_module0 := (ref_module0 binop cmpop unop truth cval is_and).
 
 Definition no_events : rcfg := {| sub := fun _ => false |}.
 
